@@ -163,7 +163,14 @@ RTryAcq ==
 
 RLdClosed ==
     /\ rpc = "ldclosed" /\ Log("RL", "ldclosed")
-    /\ delivered' = IF closed THEN delivered ELSE delivered + 1     \* frames for an ended channel are dropped silently
+    /\ rpc' = IF closed THEN "rel" ELSE "deliver"                   \* frames for an ended channel are dropped silently
+    /\ UNCHANGED <<refs, st, closed, inMap, wqClose, chansClosed, pool, panics, stale, frames, upc, spc, cpc, rhold, delivered>>
+
+\* the frame is written to the receive queue; the channel may have been closed since the check: the write to the closed
+\* queue is then refused and the frame dropped, nothing else happens
+RDeliver ==
+    /\ rpc = "deliver" /\ Log("RL", "deliver")
+    /\ delivered' = IF closed THEN delivered ELSE delivered + 1
     /\ rpc' = "rel"
     /\ UNCHANGED <<refs, st, closed, inMap, wqClose, chansClosed, pool, panics, stale, frames, upc, spc, cpc, rhold>>
 
@@ -181,7 +188,12 @@ RDel ==
 
 RCLdClosed ==
     /\ rpc = "c.ldclosed" /\ Log("RL", "ldclosed")
-    /\ rpc' = IF closed THEN "c.rel" ELSE "c.setclosed"
+    /\ rpc' = IF closed THEN "c.rel" ELSE "c.deliver"
+    /\ UNCHANGED <<refs, st, closed, inMap, wqClose, chansClosed, pool, panics, stale, frames, upc, spc, cpc, rhold, delivered>>
+
+\* receiveClose looks at the closed flag once more before it closes the channel
+RCDeliver ==
+    /\ rpc = "c.deliver" /\ Log("RL", "deliver") /\ rpc' = (IF closed THEN "c.rel" ELSE "c.setclosed")
     /\ UNCHANGED <<refs, st, closed, inMap, wqClose, chansClosed, pool, panics, stale, frames, upc, spc, cpc, rhold, delivered>>
 
 RCSetClosed ==
@@ -236,7 +248,7 @@ CRel ==
 
 UStep == UAcq \/ ULdClosed \/ UEnq \/ USetClosed \/ URel1 \/ URel2 \/ USCAcq \/ USCLdClosed \/ USCSetClosed \/ USCEnq \/ USCRel
 SStep == SDel \/ SLoad \/ SSetClosed \/ SRel
-RStep == RGet \/ RTryAcq \/ RLdClosed \/ RRel \/ RDel \/ RCLdClosed \/ RCSetClosed \/ RCRel \/ RCLoad \/ RCFSetClosed \/ RCFRel
+RStep == RGet \/ RTryAcq \/ RLdClosed \/ RDeliver \/ RRel \/ RDel \/ RCLdClosed \/ RCDeliver \/ RCSetClosed \/ RCRel \/ RCLoad \/ RCFSetClosed \/ RCFRel
 CStep == CBegin("rl") \/ CBegin("sl") \/ CRange \/ CDel \/ CLoad \/ CSetClosed \/ CRel
 
 Next == UStep \/ SStep \/ RStep \/ CStep
